@@ -12,6 +12,8 @@ import Proofs.Monad
 import Props.C03
 import Proofs.GraphHist
 import Proofs.ConvertMode
+import Proofs.PlanTotal
+import Proofs.PlanMode
 
 namespace Measured.C07
 open Measured
@@ -129,5 +131,30 @@ theorem direct_conversion_mode_independent {σ : UId → Rat} (hσ : ∀ k, σ k
     CM.exec (convert q t) (withAsserts x c) = (.ok r, withAsserts x c') := by
   obtain ⟨hg, _, hw⟩ := reach_graphOK hσ hr
   exact convert_direct_mode hg hw hq ht hx hfp hne x
+
+/-- **Only ConversionNotFound (conversions between simple units, through the factor planner).**  For
+    products of powers of prefixed base units of fundamental, independent dimensions whose pairing
+    exhausts both sides and pairs units of one dimension, in every reachable state (`Reach2`: also
+    after planner conversions) `convert` returns a quantity or raises ConversionNotFound — no
+    AssertionError, KeyError, ZeroDivisionError, IndexError — with assertions on or off. -/
+theorem simple_conversion_only_not_found {σ : UId → Rat} (hσ : ∀ k, σ k ≠ 0) {K : List Dim} {plan : List (Rough Rat)}
+    {c : Conv Rat} (hr : Reach2 σ c) {q : Qty Rat} {t : UId}
+    (hq : q.unit < c.st.units.length) (ht : t < c.st.units.length)
+    (hsp : SimplePair σ K c q.unit t plan)
+    (hdims : ∀ r ∈ plan, c.st.dimOfUnit r.start = c.st.dimOfUnit r.stop) :
+    ∃ res c', CM.exec (convert q t) c = (res, c') ∧ ((∃ r, res = .ok r) ∨ res = .error .notFound) := by
+  obtain ⟨hg, ho, hw⟩ := reach2_graphOK hσ hr
+  exact convert_simple_total hσ hg hw ho hq ht hsp hdims
+
+/-- **`-O` changes nothing (conversions between simple units, through the factor planner).** -/
+theorem simple_conversion_mode_independent {σ : UId → Rat} (hσ : ∀ k, σ k ≠ 0) {K : List Dim} {plan : List (Rough Rat)}
+    {c c' : Conv Rat} (hr : Reach2 σ c) {q r : Qty Rat} {t : UId}
+    (hq : q.unit < c.st.units.length) (ht : t < c.st.units.length)
+    (hsp : SimplePair σ K c q.unit t plan)
+    (hdims : ∀ r ∈ plan, c.st.dimOfUnit r.start = c.st.dimOfUnit r.stop)
+    (hx : CM.exec (convert q t) c = (.ok r, c')) (x : Bool) :
+    CM.exec (convert q t) (withAsserts x c) = (.ok r, withAsserts x c') := by
+  obtain ⟨hg, ho, hw⟩ := reach2_graphOK hσ hr
+  exact convert_simple_mode hσ hg hw ho hq ht hsp hdims hx x
 
 end Measured.C07
